@@ -74,5 +74,10 @@ claim("C14", "lockstep",
       "Generated programs run on emulator.System with and without a recording Logger and on cpualt with and without DisassembleCurrentPC before each step: final registers, flags, cycle totals and memory must be equal; every trace line is parsed (both formats) and its address, byte list for the current widths, mnemonic, canonical operand rendering, branch destination, register values in the selected width and flag letters are compared with harness/wdc's decoder.",
       "Trusted: harness/wdc decoder/renderer; cosmetic differences (blanks, '$', 'Sn') are normalised; BRK may be listed with 1 or 2 bytes. The whole bus is mapped, so cpualt's open-bus latch is not observable.",
       "DESIGN.md section 3 C14")
+claim("C03", "sweep",
+      "exhaustive operand sweeps per method against an independent opcode matrix and decoder, cross-checked on the library's own CPUs; plus rapid",
+      "For every catalogued Emitter method x every tracker state in which it is legal x three base settings, all 2^8 / 2^16 operand values (24-bit: all 2^24 under one state, stride+edges elsewhere; thorough adds a second complete state) are emitted and compared with [opcode from harness/wdc's matrix, little-endian operand]; Len/PC must advance by the architectural length under the tracked widths; an independent decoder must read the same instruction back; for ~450k of the emits the library's disassembler and both CPUs' Step() must agree on decoding, length and (for transfers) target / pushed return address. Complete over operands, only as complete as the method catalogue (uncatalogued methods are listed in the evidence).",
+      "Trusted: harness/wdc opcode matrix and harness/asmcat catalogue (method name -> mnemonic, mode, operand shape).",
+      "DESIGN.md section 3 C03")
 for e in ENGINES:
     e["serves_properties"] = sorted(k for k, v in CLAIMED.items() if v["engine"] == e["name"])
